@@ -1,4 +1,4 @@
-\* C16 thorough: scenarios A-F of MC_C16.tla, all invariants, liveness under weak fairness
+\* C16 thorough: scenarios A-F of MC_C16.tla, safety: all invariants + the action property, deadlock freedom
 CONSTANTS
   DtorWaitsBackground = TRUE
   NotifyOnAdd = TRUE
@@ -6,7 +6,5 @@ CONSTANTS
   MCConfig = 0
   Scenarios <- ThoroughScenarios
 SPECIFICATION MCSpecSet
-INVARIANT QueueInvariants
+INVARIANTS AtMostOnce ExactlyOnce LaneBound BgBound CompletionOnce OutputBeforeCompletion StatusTable ChildrenReaped
 PROPERTY NoSpawnAfterCancel
-PROPERTY Termination
-PROPERTY CancelReaps
